@@ -129,6 +129,9 @@ func (c *Ctx) Rule(s string)   { c.res.Rule = s }
 
 var props = map[string]func(*Ctx){}
 
+// stressors run in a child process built with the race detector.
+var stressors = map[string]func(seed int64, d time.Duration) *StressReport{}
+
 func main() {
 	if len(os.Args) < 2 {
 		fmt.Fprintln(os.Stderr, "usage: harness gen|run ...")
@@ -184,6 +187,21 @@ func main() {
 			fmt.Fprintln(os.Stderr, err)
 			os.Exit(2)
 		}
+	case "stress":
+		// child process (built with -race): concurrent scenarios; prints one JSON report.
+		fs := flag.NewFlagSet("stress", flag.ExitOnError)
+		prop := fs.String("prop", "", "property id")
+		seed := fs.Int64("seed", 1, "seed")
+		millis := fs.Int("millis", 1500, "duration of each scenario")
+		fs.Parse(os.Args[2:])
+		fn, ok := stressors[*prop]
+		if !ok {
+			fmt.Fprintln(os.Stderr, "no stress scenario for", *prop)
+			os.Exit(2)
+		}
+		rep := fn(*seed, time.Duration(*millis)*time.Millisecond)
+		b, _ := json.Marshal(rep)
+		fmt.Println(string(b))
 	default:
 		fmt.Fprintln(os.Stderr, "unknown command", os.Args[1])
 		os.Exit(2)
